@@ -67,4 +67,26 @@ CLAIMED["C14"] = {
     "text": "Decides statically: for every field of the decoder state (taken from the ADT definition, so a new field becomes an obligation) reset_state stores on every path the same value the constructor builds, with two documented exceptions; the literal table is refilled or re-created on both branches; LzmaDecoder::reset / Lzma2Decoder::reset call reset_state unconditionally with the constructor's properties; sizes cannot leak across LZMA2 resets; window and range decoder are per-call locals.",
     "note": "Trusts rustc's MIR.",
 }
-NOT_APPLICABLE = {p: WIP for p in ["C01","C02","C03","C04","C05","C09","C10","C15","C17"]}
+
+CLAIMED["C09"] = {
+    "engine": "E-CFG/E-TERM",
+    "technique": "static analysis: distance guards located by operand provenance in every implementor of the window trait, Err-only failing edges, dominance over every buffer access; field privacy",
+    "design_ref": "DESIGN.md section 4 / C09",
+    "text": "Decides statically for both window implementations (enumerated from the impl list): last_n and append_lz test dist > bytes produced (and dist > dict_size for the circular window), the failing edges reach only Err, and the tests dominate every access to the buffer and every append in the function; the buffer field is private to the window module and the symbol decoder uses only the guarded trait methods; the circular copy reads at the wrapped running offset. Declined: that guarded cells hold the right bytes (value-level).",
+    "note": "Trusts rustc's MIR and privacy checking.",
+}
+CLAIMED["C10"] = {
+    "engine": "E-CFG/E-TERM",
+    "technique": "static analysis: provenance of the limit argument, who-may-grow enumeration with dominance of the limit test, equality of tested and grown length, who-reads enumeration",
+    "design_ref": "DESIGN.md section 4 / C10",
+    "text": "Decides statically: at both constructions of the circular window (one-shot and streaming) the limit is Options.memlimit.unwrap_or(usize::MAX) with no cast, clamp or arithmetic; every call that can grow the window buffer sits on the true edge of new_len <= memlimit whose other edge is Err, and the grown length is exactly the tested index + 1; the limit is read by that guard only and only when the buffer must grow (so a sufficient limit leaves the control flow unchanged). Declined: heap measurements.",
+    "note": "Trusts rustc's MIR.",
+}
+CLAIMED["C17"] = {
+    "engine": "E-CFG/E-TERM",
+    "technique": "static analysis: guards of the LZMA2 chunk parser by operand provenance with Err-only edges and dominance; provenance of the io::Take limit and of the output target; shared C08 final-equality / copy-length rules",
+    "design_ref": "DESIGN.md section 4 / C17",
+    "text": "Decides statically: status bytes other than 0/1/2 reach only the LZMA chunk parser, whose first action is status & 0x80 == 0 -> Err; props >= 225 and lc + lp > 4 lead to Err and dominate the construction of the properties; the range decoder of a chunk reads from input.take(be16 + 1); the output target ((status & 0x1F) << 16 | be16) + 1 + produced is set before decoding and the Finish-mode final equality with unclamped copy lengths makes over/under-production an error; uncompressed chunks are one read_exact of be16 + 1 bytes. Input ending early surfaces as the read error that C12.R1 shows is propagated.",
+    "note": "Trusts rustc's MIR; io::Take yields EOF at its limit (std contract).",
+}
+NOT_APPLICABLE = {p: WIP for p in ["C01","C02","C03","C04","C05","C15"]}
